@@ -11,6 +11,7 @@ EXTENDS ProtoGrammar, Json
 CONSTANTS MAXINSTR,      \* instructions per program (templates that need two count as two)
           MAXDEPTH,      \* open scopes above the root
           VIOLATING,     \* include the rule-violating templates
+          EXTENDED,      \* include the second tier of valid templates
           CORE           \* only the core templates (required field, optional field, dummy, break): for deep structural exploration
 VARIABLES stk, n, done
 gvars == <<stk, n, done>>
@@ -36,7 +37,20 @@ Valid(k) ==
     <<[I0 EXCEPT !.tag = "break"]>>,
     <<[I0 EXCEPT !.tag = "dummy", !.type = "char", !.hard = <<0, 0>>, !.hardkind = "ok", !.hardtext = "0"]>>,
     <<[Field("", "char") EXCEPT !.hard = <<0, 7>>, !.hardkind = "ok", !.hardtext = "7"]>>,
-    <<[Field(Nm(k), "string") EXCEPT !.len = Lit(2), !.hard = <<79, 75>>, !.hardkind = "ok", !.hardtext = "OK"]>> >>
+    <<[Field(Nm(k), "string") EXCEPT !.len = Lit(2), !.hard = <<79, 75>>, !.hardkind = "ok", !.hardtext = "OK"]>>,
+    \* second tier (EXTENDED): the remaining basic types, overrides, nested chunked structs, optional structs and arrays, offsets
+    <<Field(Nm(k), "byte")>>, <<Field(Nm(k), "three")>>, <<Field(Nm(k), "int")>>, <<Field(Nm(k), "blob")>>,
+    <<[Field(Nm(k), "Color") EXCEPT !.over = "short"]>>, <<Field(Nm(k), "Named")>>, <<[Field(Nm(k), "Tail") EXCEPT !.optional = TRUE]>>,
+    <<[Field(Nm(k), "string") EXCEPT !.len = Lit(3), !.padded = TRUE]>>, <<[Field(Nm(k), "encoded_string") EXCEPT !.optional = TRUE]>>,
+    <<[I0 EXCEPT !.tag = "length", !.name = Ln(k), !.type = "byte", !.offset = -1], [Field(Nm(k), "encoded_string") EXCEPT !.len = Ref(Ln(k))]>>,
+    <<[I0 EXCEPT !.tag = "length", !.name = Ln(k), !.type = "char", !.optional = TRUE], [I0 EXCEPT !.tag = "array", !.name = Nm(k), !.type = "short", !.len = Ref(Ln(k)), !.optional = TRUE]>>,
+    <<[I0 EXCEPT !.tag = "array", !.name = Nm(k), !.type = "Color", !.len = Lit(2)]>>,
+    <<[I0 EXCEPT !.tag = "array", !.name = Nm(k), !.type = "Item"]>>,
+    <<[I0 EXCEPT !.tag = "array", !.name = Nm(k), !.type = "bool", !.optional = TRUE]>>,
+    <<[I0 EXCEPT !.tag = "array", !.name = Nm(k), !.type = "Named", !.delimited = TRUE, !.trailing = TRUE]>>,
+    <<[I0 EXCEPT !.tag = "array", !.name = Nm(k), !.type = "short", !.len = Lit(2), !.delimited = TRUE, !.trailing = FALSE]>>,
+    <<[Field(Nm(k), "bool") EXCEPT !.hard = TRUE, !.hardkind = "ok", !.hardtext = "true"]>>,
+    <<[Field("", "string") EXCEPT !.hard = <<104, 105>>, !.hardkind = "ok", !.hardtext = "hi"]>> >>
 Viol(k) ==
   << <<Field(Nm(k), "Nope")>>,                                                                     \* R2
     <<Field("f1", "char")>>,                                                                      \* R3 when f1 is in scope
@@ -53,7 +67,9 @@ Viol(k) ==
 \* sequences, not sets: TLC cannot compare records whose fields hold different kinds of values
 CoreT(k) == << <<Field(Nm(k), "char")>>, <<[Field(Nm(k), "short") EXCEPT !.optional = TRUE]>>, <<[I0 EXCEPT !.tag = "break"]>>,
               <<[I0 EXCEPT !.tag = "dummy", !.type = "char", !.hard = <<0, 0>>, !.hardkind = "ok", !.hardtext = "0"]>> >>
-Templates(k) == IF CORE THEN CoreT(k) ELSE IF VIOLATING THEN Valid(k) \o Viol(k) ELSE Valid(k)
+\* the first 18 valid templates are the base alphabet; EXTENDED adds the second tier
+ValidT(k) == IF EXTENDED THEN Valid(k) ELSE SubSeq(Valid(k), 1, 18)
+Templates(k) == IF CORE THEN CoreT(k) ELSE IF VIOLATING THEN ValidT(k) \o Viol(k) ELSE ValidT(k)
 
 Scope(kind) == [k |-> kind, code |-> <<>>, field |-> "", ftype |-> "", cases |-> <<>>, cv |-> [default |-> FALSE, val |-> [k |-> "num", n |-> <<0, 0>>, name |-> ""], cname |-> ""]]
 Top == stk[Len(stk)]
